@@ -38,3 +38,30 @@ package interp
 //@   ensures line-pass-keeps-function-breakpoint: callFlag(n) == old(callFlag(n))
 //@   ensures function-pass-keeps-line-breakpoint: !(len(setup.lines) > 0) ==> lineFlag(n) == old(lineFlag(n))
 //@   canary lineFlag(n) == old(lineFlag(n))
+
+// The per-node stop decision of the debugger (called by runCfg before every node when a debugger is
+// attached).  A node carrying a breakpoint is reported — exactly one DebugBreak event — whatever the
+// stepping mode of the goroutine is (only a terminated session reports nothing); a node without a
+// position never stops; free running never stops at a node without a breakpoint.
+//@ trusted func (dbg *Debugger) cancel()
+//@ func (dbg *Debugger) exec(n, f) (stop)
+//@   props C19
+//@   opt safety = off
+//@   opt defer = skip
+//@   opt trace-calls = events
+//@   opt inline = shouldBreak
+//@   requires [assume] dbg != nil && n != nil && f != nil && f.debug != nil && f.debug.g != nil
+//@   let g: f.debug.g
+//@   let mode: f.debug.g.mode
+//@   let brk: n.debug != nil && (n.debug.breakOnLine || n.debug.breakOnCall)
+//@   ensures breakpoint-reported: brk && n.pos != token.NoPos && mode != DebugTerminate ==> tracedCount == 1 && tracedAt(0).reason == DebugBreak && tracedAt(0).frame == f
+//@   ensures current-node-recorded: f.debug.node == n
+//@   ensures no-position-never-stops: n.pos == token.NoPos ==> !stop && tracedCount == 0
+//@   ensures free-run-stops-only-at-breakpoints: mode == debugRun && !brk ==> !stop && tracedCount == 0
+//@   ensures terminate-stops: mode == DebugTerminate && n.pos != token.NoPos ==> stop && tracedCount == 0
+//@   ensures at-most-one-event: tracedCount <= 1
+//@   ensures step-over-skips-deeper-frames: mode == DebugStepOver && !brk && old(g.fDepth > g.fStep) ==> tracedCount == 0 && !stop
+//@   ensures step-out-skips-same-or-deeper-frames: mode == DebugStepOut && !brk && old(g.fDepth >= g.fStep) ==> tracedCount == 0 && !stop
+//@   ensures step-reports: n.pos != token.NoPos && !brk && (mode == DebugStepInto || mode == DebugPause || mode == DebugEntry || (mode == DebugStepOver && old(g.fDepth <= g.fStep)) || (mode == DebugStepOut && old(g.fDepth < g.fStep))) ==> tracedCount == 1 && tracedAt(0).reason == mode
+//@   canary tracedCount == 1
+//@   canary brk ==> stop
